@@ -47,8 +47,13 @@ IsEmptyLine(l) == l.k = "empty" /\ ~l.c        \* the only line on which visit_l
 
 EmptyB == [fields |-> <<>>, consts |-> <<>>, doc |-> <<>>, mode |-> "none", union |-> FALSE, offc |-> FALSE]
 NoErr  == [e |-> FALSE, line |-> 0]
+\* log: the steps as the hooks of the implementation record them (Binding B): header flushes, commits of queued
+\* attributes (with the line of their statement and their doc), dropped comments, statements; no-op flushes are omitted
 St0 == [comment |-> <<>>, hdr |-> TRUE, pending |-> <<>>, structs |-> <<EmptyB>>, dep |-> FALSE,
-        prints |-> <<>>, err |-> NoErr]
+        prints |-> <<>>, err |-> NoErr, log |-> <<>>]
+Logged(s, e) == [s EXCEPT !.log = Append(@, e)]
+StmtClass(k) == CASE k \in {"field"} -> "field" [] k \in {"const", "badconst"} -> "const" [] k = "pad" -> "pad"
+                  [] k = "marker" -> "marker" [] OTHER -> "directive"
 
 Failed(s) == s.err.e
 Fail(s, n) == [s EXCEPT !.err = [e |-> TRUE, line |-> n]]
@@ -68,10 +73,13 @@ Commit(s, p, doc, now) ==
                               ELSE SetCur(s, [b EXCEPT !.fields = Append(@, [k |-> p.k, i |-> p.i, doc |-> doc])])
 
 FlushComment(s, now) ==
-  IF s.hdr THEN [SetCur(s, [Cur(s) EXCEPT !.doc = s.comment]) EXCEPT !.hdr = FALSE, !.comment = <<>>]
+  IF s.hdr THEN Logged([SetCur(s, [Cur(s) EXCEPT !.doc = s.comment]) EXCEPT !.hdr = FALSE, !.comment = <<>>],
+                       [e |-> "hdr", doc |-> s.comment])
   ELSE IF s.pending # <<>>
-       THEN [Commit([s EXCEPT !.pending = <<>>], s.pending[1], s.comment, now) EXCEPT !.comment = <<>>]
-       ELSE [s EXCEPT !.comment = <<>>]          \* a comment without an owner is dropped
+       THEN [Commit(Logged([s EXCEPT !.pending = <<>>], [e |-> "commit", i |-> s.pending[1].i, doc |-> s.comment]),
+                    s.pending[1], s.comment, now) EXCEPT !.comment = <<>>]
+       ELSE IF s.comment # <<>> THEN Logged([s EXCEPT !.comment = <<>>], [e |-> "drop", doc |-> s.comment])
+       ELSE s                                    \* a comment without an owner is dropped
 
 Apply(s, l, i) ==
   LET b == Cur(s) IN
@@ -93,7 +101,10 @@ Apply(s, l, i) ==
     [] l.k \in {"assertfalse", "undef"} -> Fail(s, i)
 
 \* every statement visitor (and visit_identifier) flushes first
-Stmt(s, l, i) == LET f == FlushComment(s, i) IN IF Failed(f) THEN f ELSE Apply(f, l, i)
+\* (an undefined identifier raises while the expression is visited, before the statement visitor runs)
+Stmt(s, l, i) == LET f == FlushComment(s, i) IN
+                   IF Failed(f) THEN f
+                   ELSE Apply(IF l.k = "undef" THEN f ELSE Logged(f, [e |-> "stmt", c |-> StmtClass(l.k), i |-> i]), l, i)
 Comment(s, l, i) == IF l.c THEN [s EXCEPT !.comment = Append(@, i)] ELSE s
 \* visit_line: only a line of length zero flushes (WhitespaceOnlyLineDoesNotFlush)
 LineEnd(s, l, i) == IF IsEmptyLine(l) THEN FlushComment(s, i) ELSE s
@@ -109,7 +120,10 @@ RunFrom(s, ls, i) == IF i > Len(ls) THEN s ELSE RunFrom(Process(s, ls[i], i), ls
 Machine(ls) == RunFrom(St0, ls, 1)
 
 \* end of input: the pending comment / attribute is flushed (line number = the last line)
-Final(s, n) == IF Failed(s) \/ AsFoundNoFinalFlush THEN s ELSE FlushComment(s, n)
+\* (a flush with nothing to commit and no comment - e.g. right after the response marker - is skipped: it would only set an
+\* empty header comment)
+Final(s, n) == IF Failed(s) \/ AsFoundNoFinalFlush THEN s
+               ELSE IF s.comment # <<>> \/ ~s.hdr THEN FlushComment(s, n) ELSE s
 
 \* DataTypeBuilder.finalize: errors found here carry no line
 SchemaOK(b) ==
@@ -121,14 +135,19 @@ FirstSyntax(ls) == IF \E j \in DOMAIN ls : ls[j].k = "syntax"
                    THEN CHOOSE j \in DOMAIN ls : ls[j].k = "syntax" /\ \A m \in 1..(j - 1) : ls[m].k # "syntax"
                    ELSE 0
 
+\* what DataTypeBuilder.finalize sees: per section the numbers of fields and constants, the union flag and the mode
+FinalizeEvent(f) == [e |-> "finalize", dep |-> f.dep,
+                     sections |-> [j \in DOMAIN f.structs |-> [nf |-> Len(f.structs[j].fields), nc |-> Len(f.structs[j].consts),
+                                                              union |-> f.structs[j].union, mode |-> f.structs[j].mode]]]
 \* The observable result of reading the text: the model's projection, or the error's line; plus the @print events.
 Result(ls) ==
-  IF FirstSyntax(ls) > 0 THEN [ok |-> FALSE, line |-> FirstSyntax(ls), prints |-> <<>>]   \* nothing is visited
+  IF FirstSyntax(ls) > 0 THEN [ok |-> FALSE, line |-> FirstSyntax(ls), prints |-> <<>>, log |-> <<>>]   \* nothing is visited
   ELSE LET f == Final(Machine(ls), Len(ls)) IN
-       IF Failed(f) THEN [ok |-> FALSE, line |-> f.err.line, prints |-> f.prints]
+       IF Failed(f) THEN [ok |-> FALSE, line |-> f.err.line, prints |-> f.prints, log |-> f.log]
        ELSE IF \E j \in DOMAIN f.structs : ~SchemaOK(f.structs[j])
-            THEN [ok |-> FALSE, line |-> 0, prints |-> f.prints]
+            THEN [ok |-> FALSE, line |-> 0, prints |-> f.prints, log |-> Append(f.log, FinalizeEvent(f))]
             ELSE [ok |-> TRUE, service |-> (Len(f.structs) = 2), dep |-> f.dep, prints |-> f.prints,
+                  log |-> Append(f.log, FinalizeEvent(f)),
                   parts |-> [j \in DOMAIN f.structs |->
                                [union |-> f.structs[j].union, mode |-> f.structs[j].mode, doc |-> f.structs[j].doc,
                                 fields |-> f.structs[j].fields, consts |-> f.structs[j].consts]]]
@@ -233,6 +252,13 @@ PrintsBeforeError ==
   ~out.ok /\ out.line # 0 /\ FirstSyntax(lines) = 0 =>
      out.prints = SortedSeq({ j \in DOMAIN lines : lines[j].k = "print" /\ j < out.line })
 
+\* step level: every attribute statement is committed exactly once, after its statement and before finalization
+CommitOncePerStatement ==
+  out.ok => LET C == { j \in DOMAIN out.log : out.log[j].e = "commit" }
+                S == { j \in DOMAIN out.log : out.log[j].e = "stmt" /\ out.log[j].c \in {"field", "const", "pad"} } IN
+              /\ Cardinality(C) = Cardinality(S)
+              /\ \A s \in S : \E c \in C : c > s /\ out.log[c].i = out.log[s].i
+              /\ \A c1, c2 \in C : c1 # c2 => out.log[c1].i # out.log[c2].i
 \* C03: formatting invariance.  Structure = everything but doc comments.
 Structure(r) ==
   IF r.ok THEN [ok |-> TRUE, service |-> r.service, dep |-> r.dep, nprints |-> Len(r.prints),
@@ -253,7 +279,8 @@ NeutralInsert ==
 \* the final newline: appending an empty last line changes nothing at all (docs included)
 FinalNewline ==
   LET r == Result(Append(lines, [k |-> "empty", c |-> FALSE])) IN
-    IF out.ok THEN r = out ELSE ~r.ok /\ r.line = out.line /\ r.prints = out.prints
+    IF out.ok THEN [r EXCEPT !.log = <<>>] = [out EXCEPT !.log = <<>>]
+    ELSE ~r.ok /\ r.line = out.line /\ r.prints = out.prints
 \* a run of blank characters on an otherwise empty line IS observable in doc comments only
 BlankVsEmptyStructure ==
   \A p \in DOMAIN lines : lines[p].k = "blank" =>
